@@ -59,4 +59,27 @@ macro "lb_norm" : tactic =>
       Bool.and_eq_true, true_and, and_true, I64_MIN, I64_MAX, U64_MOD, U32_MAX,
       Bool.not_eq_true, Bool.false_eq_true, if_false, if_true, reduceIte] at *)
 
+theorem isZero_iff (a : LB) (ha : a.wf) : LB.isZero a = true ↔ a.den = 0 := by
+  cases a with
+  | short v => simp [LB.isZero, LB.den]
+  | long v =>
+    rw [wf_long] at ha
+    simp only [LB.isZero, den_long, Bool.false_eq_true, false_iff]; omega
+
+theorem isZero_false_iff (a : LB) (ha : a.wf) : LB.isZero a = false ↔ a.den ≠ 0 := by
+  rw [← Bool.not_eq_true, isZero_iff a ha]
+
+theorem isNegative_iff (a : LB) : LB.isNegative a = true ↔ a.den < 0 := by
+  simp [LB.isNegative]
+
+theorem isPositive_iff (a : LB) : LB.isPositive a = true ↔ 0 < a.den := by
+  simp [LB.isPositive]
+
+theorem isOne_iff (a : LB) (ha : a.wf) : LB.isOne a = true ↔ a.den = 1 := by
+  cases a with
+  | short v => simp [LB.isOne, LB.den]
+  | long v =>
+    rw [wf_long] at ha
+    simp only [LB.isOne, den_long, Bool.false_eq_true, false_iff]; omega
+
 end XrayModel
